@@ -122,6 +122,7 @@ package template_funcs
 // initialism) ... for every string including empty and non-ASCII ones": the first
 // letter is the first *rune* of s.
 //@ func Exported props=C16
+//@   pure
 //@   ensures#empty s == "" ==> result == ""
 //@   ensures#initialism s != "" && (exists i int :: 0 <= i && i < len(golintInitialisms) && strings.ToUpper(s) == golintInitialisms[i]) ==> result == strings.ToUpper(s)
 //@   ensures#firstrune s != "" && !(exists i int :: 0 <= i && i < len(golintInitialisms) && strings.ToUpper(s) == golintInitialisms[i])
